@@ -136,6 +136,24 @@ def check(ctx: Ctx) -> str:
         if js:
             root = ast.unparse(js[0].args[0])
             ctx.check(root in ("searchpath", "self._template_root"), f"{cname}:root", f"loaders:{cname}.get_source", "join root", f"the join starts at {root}, not at a search location", fi.loc(js[0]))
+            # ... and used as built: the joined path is bound directly to the name the file
+            # access uses - any function applied to it afterwards (expanduser, expandvars,
+            # normpath, realpath, unquote) re-interprets the checked segments ('~', '$X', links)
+            par = getattr(js[0], "_parent", None)
+            inner: ast.AST = js[0]
+            wrappers: list[str] = []
+            while isinstance(par, ast.Call) and inner in par.args:
+                wrappers.append(ast.unparse(par.func))
+                inner, par = par, getattr(par, "_parent", None)
+            # normpath only rewrites separators here: the pieces contain no '..', '.' or ''
+            harmless = {"os.path.normpath", "posixpath.normpath"}
+            bad_wrappers = [w for w in wrappers if w not in harmless]
+            direct = isinstance(par, ast.Assign) and par.value is inner and len(par.targets) == 1 and isinstance(par.targets[0], ast.Name) and not bad_wrappers
+            var = par.targets[0].id if isinstance(par, ast.Assign) and isinstance(par.targets[0], ast.Name) else None
+            rebound = [a for a in ast.walk(fi.node) if var and isinstance(a, (ast.Assign, ast.AugAssign)) and a is not par and any(isinstance(t_, ast.Name) and t_.id == var for t_ in (a.targets if isinstance(a, ast.Assign) else [a.target]))]
+            wrapper = ", ".join(bad_wrappers)
+            ctx.check(direct and not rebound, f"{cname}:join-used-as-is", f"loaders:{cname}.get_source", f"joined path post-processed ({wrapper or [ast.unparse(r)[:40] for r in rebound]})",
+                      f"{cname}.get_source does not use posixpath.join(root, *pieces) as it is: the result is passed through `{wrapper or [ast.unparse(r)[:50] for r in rebound]}` before the file is opened. The segments were validated as plain names; expanding '~', variables or links afterwards lets `~/secret.txt` (search path '') or similar leave the search directory", fi.loc(js[0]))
 
     ctx.rule("R4", "ChoiceLoader / PrefixLoader: get_source and load are siblings - same iteration, same caught class (TemplateNotFound only), same final raise")
     for cname in ("ChoiceLoader", "PrefixLoader"):
